@@ -6,7 +6,7 @@
    initially recovered nodes are never touched, and rows are only appended (phase 2:
    [Inv2]).  Needs of the provider: it answers with delays for susceptible neighbours only,
    and no delay or duration is negative ([okans]). *)
-From EoNV Require Import Prelude Samp Graph EventSIR C05x.
+From EoNV Require Import Prelude Samp Graph EventSIR InitChk.
 Require Import Lqa.
 
 Definition outcome := (list (node * xtime) * xtime)%type.
